@@ -869,6 +869,38 @@ def _expand_and_then(B, bi, t, by_path):
     return True
 
 
+def _has_loop(C):
+    """does the (raw) body have a cycle along normal edges?"""
+    succ = {}
+    for i, bk in enumerate(C["blocks"]):
+        t = bk["term"]
+        k = t["k"]
+        if k == "goto":
+            succ[i] = [t["t"]]
+        elif k == "switch":
+            succ[i] = list(t["tgts"]) + [t["otherwise"]]
+        elif k in ("call", "drop", "assert"):
+            succ[i] = [t["t"]] if t.get("t") is not None else []
+        else:
+            succ[i] = []
+    color = {}
+    stack = [(0, iter(succ.get(0, [])))]
+    color[0] = 1
+    while stack:
+        n, it = stack[-1]
+        for m in it:
+            if color.get(m) == 1:
+                return True
+            if m not in color:
+                color[m] = 1
+                stack.append((m, iter(succ.get(m, []))))
+                break
+        else:
+            color[n] = 2
+            stack.pop()
+    return False
+
+
 def inline_helpers(facts, is_new, max_rounds=4):
     """Inline calls to `new helper` functions (local bodies for which is_new(path) holds) into their callers, on
     the raw exported MIR: the callee's locals and blocks are appended (renumbered), arguments become assignments
@@ -899,6 +931,8 @@ def inline_helpers(facts, is_new, max_rounds=4):
                     continue
                 if any(bk["term"]["k"] == "call" and "indirect" not in bk["term"]["func"] and (bk["term"]["func"].get("rpath") or bk["term"]["func"]["path"]) == cal for bk in C["blocks"]):
                     continue   # recursive helper
+                if _has_loop(C):
+                    continue   # a helper with a loop of its own stays a call: inlining it into a caller's loop multiplies the paths
                 lo = len(B["locals"])
                 bo = len(B["blocks"])
                 _SUB.clear()
